@@ -12,6 +12,7 @@ from ..absint import FlagEval, TOP
 from ..cfg import CFG
 from ..dataflow import definitely_assigned, loaded_names
 from ..model import walk_shallow, call_name, is_self_attr, dotted_name, parent, ancestors, enclosing_function, rename_copy
+from ..util import canon
 from ..util import (has_call, find_calls, assigned_value, const_str, unparse, kw, arg_or_kw, enclosing_stmt,
                     guards_of, call_tail, control_ancestors, alpha, bound_names, name_bound)
 from .. import mutate as M
@@ -80,6 +81,8 @@ def run(ctx):
     c05.weighted_choice(ctx, "C15.R13")
     c05.choicew_pairs(ctx, "C15.R13")
     r14_answer_lengths(ctx, pf)
+    r15_batch_validity(ctx)
+    r16_pmf_recognition(ctx)
 
 
 def _is_identity_any(e, actions_name):
@@ -281,6 +284,40 @@ def r11_arm_agreement(ctx, pp, rule="C15.R11"):
         for d in draws:
             ok = len(d.args) == 3 and unparse(d.args[1]) == "actions" and isinstance(d.args[2], ast.Name)
             ctx.ob(rule, SAF, "SafeLearner._parse_pred", d, "row-major PMF: row i draws from pred[i]", ok, stmt="row PMF direct")
+
+
+def r16_pmf_recognition(ctx, rule="C15.R16"):
+    """an un-hinted answer is taken for a PMF only if it can be one: as many entries as actions, summing to one, no negative entry."""
+    ctx.rule(rule, "possible_pmf demands all three: len(answer) == len(actions), sum close to 1, and every entry >= 0 (the entry test is a lower bound at zero -- "
+                   "an answer with a negative entry is a feature-vector action, not a distribution)")
+    fn = ctx.fn(SAF, "SafeLearner.possible_pmf")
+    I = fn.args.args[0].arg
+    rets = [r for r in ast.walk(fn) if isinstance(r, ast.Return) and isinstance(r.value, ast.BoolOp) and isinstance(r.value.op, ast.And)]
+    ctx.floor(rule, "conjunctive return of possible_pmf", len(rets), 1)
+    for r in rets:
+        parts = r.value.values
+        has_len = any(canon(unparse(p)) == canon(f"len({I}) == len(actions)") for p in parts)
+        has_sum = any(isinstance(p, ast.Call) and call_name(p) in ("isclose", "math.isclose") and unparse(p.args[0]) == f"sum({I})" and unparse(p.args[1]) == "1" for p in parts)
+        nonneg = False
+        for p in parts:
+            if isinstance(p, ast.Call) and call_name(p) == "all" and p.args and isinstance(p.args[0], ast.GeneratorExp) and unparse(p.args[0].generators[0].iter) == I:
+                v = unparse(p.args[0].generators[0].target)
+                nonneg = canon(unparse(p.args[0].elt)) in (canon(f"{v} >= 0"), canon(f"0 <= {v}"))
+        ctx.ob(rule, SAF, "SafeLearner.possible_pmf", r, "a PMF candidate has the length of the action set, sums to one and has no negative entry", has_len and has_sum and nonneg,
+               detail={"length": has_len, "sum": has_sum, "non-negative": nonneg})
+
+
+def r15_batch_validity(ctx, rule="C15.R15"):
+    """a batched answer is accepted when its length (row-major) or the length of its FIRST element (column-major: one column per part, kwargs LAST) is the batch size."""
+    ctx.rule(rule, "raise_if_not_valid_out compares the batch size with len(answer) and len(answer[0]): the first column of a column-major answer -- never the last element, "
+                   "which is the kwargs mapping when the learner returns kwargs (its number of keys says nothing about the batch)")
+    fn = ctx.fn(SAF, "SafeLearner.raise_if_not_valid_out")
+    O = fn.args.args[0].arg
+    measured = [c.args[0] for c in ast.walk(fn) if isinstance(c, ast.Call) and call_name(c) in ("len_or_0", "len") and c.args and any(isinstance(y, ast.Name) and y.id == O for y in ast.walk(c.args[0]))]
+    subs = [m for m in measured if isinstance(m, ast.Subscript) and unparse(m.value) == O]
+    ctx.floor(rule, "elements of the answer whose length is compared with the batch size", len(subs), 1)
+    for m in subs:
+        ctx.ob(rule, SAF, "SafeLearner.raise_if_not_valid_out", m, "the element measured for a column-major answer is the first one", unparse(m.slice) == "0", detail={"measured": unparse(m)})
 
 
 def r14_answer_lengths(ctx, pf, rule="C15.R14"):
@@ -605,6 +642,8 @@ def _body_of(st):
 
 
 CONTROLS = [
+    ("PMF candidates bounded above instead of below", SAF, M.replace_expr("SafeLearner.possible_pmf", "i >= 0", "i <= 1"), "C15.R16"),
+    ("batch validity measured on the last element", SAF, M.replace_expr("SafeLearner.raise_if_not_valid_out", "len_or_0(out[0])", "len_or_0(out[-1])"), "C15.R15"),
     ("safe-action cache keyed by the caller's own list", SAF, M.replace_expr("SafeLearner.predict", "list(actions) if actions.__class__ is list else actions", "actions"), "C15.R6"),
     ("one item answers are not classified", SAF, M.replace_expr("SafeLearner.pred_format", "len(std_pred) > 2 or len(std_pred) == 1", "len(std_pred) > 2"), "C15.R14"),
     ("weighted choice by left bisection", "coba/random.py", M.replace_expr("CobaRandom.choice", "next(compress(seq, map(partial(lt, next(self._randu) * tot), accumulate(weights))))",
